@@ -75,6 +75,11 @@ DIRECT = re.compile(r"^[0-9a-f]+$")
 
 
 def judge(ctx, ws, insts, lo, hi, lo_s, hi_s, text=None, crlf=False, binary_b64=None):
+    with ctx.ambient_log():
+        return _judge(ctx, ws, insts, lo, hi, lo_s, hi_s, text, crlf, binary_b64)
+
+
+def _judge(ctx, ws, insts, lo, hi, lo_s, hi_s, text=None, crlf=False, binary_b64=None):
     text = text or L.render(insts, ctx.rng)
     binary = binary_b64 is not None
     if binary:
